@@ -9,7 +9,7 @@ CHECKS = {
     "C01": ("property-based testing (proptest tapes) against a validity predicate over the provider tables",
             "exploration",
             "Generated universes/problems/runtimes; every Ok(S) is checked against an independent validity predicate (requirements, constraints, constrains, exclusions, Unknown, locks, one-per-package) in release and debug builds. Exploration is the right level: the property quantifies over all providers and the oracle is exact on each generated case.",
-            "Trusts the table-driven provider and the validity predicate (vcore/src/reference.rs); random universes are bounded (<=12 packages, <=6 candidates, ids < ~500); stage `huge` adds one package of up to 5000 candidates. A quarter of the universes answer filter_candidates in reverse order and the union iterator varies its size_hint (TableProvider::vary_answers, all checks that solve); one generated lock in eight names a solvable the provider no longer lists.",
+            "Trusts the table-driven provider and the validity predicate (vcore/src/reference.rs); random universes are bounded (<=12 packages, <=6 candidates, ids < ~500); stage `huge` adds one package of up to 5000 candidates. A quarter of the universes answer filter_candidates in reverse order and the union iterator varies its size_hint (TableProvider::vary_answers, all checks that solve); one generated lock in eight names a solvable the provider no longer lists. One universe in eight is solved under a TRACE-level tracing subscriber; a fifth of the asynchronous universes need two completions per request; hints and exclusions may name unlisted solvables.",
             "DESIGN.md 3/C01"),
     "C02": ("differential / metamorphic property-based testing against an exhaustive reference resolver",
             "exploration",
@@ -19,7 +19,7 @@ CHECKS = {
     "C03": ("property-based testing: edge-truth, reachability and graph-only unsatisfiability (DPLL) oracles on the public ConflictGraph",
             "exploration",
             "For every generated unsatisfiable case the public conflict graph is checked edge by edge against the provider tables, for reachability, and for being unsatisfiable on its own.",
-            "Trusts the oracle in vcore/src/oracle.rs; graphs of more than 64 nodes skip the DPLL step (never reached at generated sizes).",
+            "Trusts the oracle in vcore/src/oracle.rs; graphs of more than 64 nodes skip the DPLL step (never reached at generated sizes). Every conflict graph is first built with the provider's cancellation token raised. The graph-only unsatisfiability step is a DPLL with a deterministic node budget (exhaustion is labelled, never a verdict).",
             "DESIGN.md 3/C03"),
     "C04": ("property-based testing / fuzzing for panics, step budgets, deadlocks and output bounds in debug and release builds",
             "exploration",
@@ -59,7 +59,7 @@ CHECKS = {
     "C11": ("schedule exploration with a quiescence invariant evaluated by the harness executor",
             "exploration",
             "At every quiescent point of every generated schedule, every get_candidates request implied by delivered dependency information must have been issued.",
-            "Quiescence = root future pending and not self-woken; all provider calls are gated in this check. Stage `huge`: hinted packages with thousands of candidates (> 1 024 dependency requests pending in one encoder round).",
+            "Quiescence = root future pending and not self-woken; all provider calls are gated in this check. Stage `huge`: hinted packages with thousands of candidates (> 1 024 dependency requests pending in one encoder round). Stage `vast`: 66 000..72 000 independent root requirements must all have been requested when the solver first blocks.",
             "DESIGN.md 3/C11"),
     "C12": ("fault injection: cancellation enumerated over every poll index (transient and sticky) of generated cases",
             "fault_enumeration",
@@ -89,7 +89,7 @@ CHECKS = {
     "C17": ("differential testing Rust API vs C++ API plus model-based container histories on both sides of the FFI, under ASan/UBSan and a ledger allocator",
             "exploration",
             "Generated universes are solved through resolvo::solve with a C++ provider compiled against the current headers and through the Rust API (exact equality of solution / error text); generated operation histories drive resolvo::Vector/String in C++ and resolvo_cpp's Vector/String in Rust, crossing the boundary in both directions, against models; memory safety comes from AddressSanitizer (Rust and C++), UBSan traps (C++) and a ledger global allocator that checks dealloc layouts and per-case leaks.",
-            "Sanitizers observe executed paths only (thorough tier adds strict Miri for the Rust side of the containers); element types generated are id structs and String; push_back never receives a reference into the same vector (not promised by the header). Needs the verif-hooks feature of resolvo_cpp (re-export of the container types).",
+            "Sanitizers observe executed paths only (thorough tier adds strict Miri for the Rust side of the containers); element types generated are id structs and String; push_back never receives a reference into the same vector (not promised by the header). Needs the verif-hooks feature of resolvo_cpp (re-export of the container types). The shim also exercises resolvo::Pool<Id,T> (resolvo_pool.h) with std::string and resolvo::String; universes contain unlisted solvables and answers that lock / hint / exclude them.",
             "DESIGN.md 3/C17"),
     "C18": ("stateful property testing of Pool interning against reference maps with held references",
             "exploration",
@@ -99,12 +99,12 @@ CHECKS = {
     "C19": ("stateful property testing of Mapping against a BTreeMap model",
             "exploration",
             "Generated insert/unset/get/get_mut/iter/serde histories over dense, offset, sparse and chunk-edge id distributions, compared with BTreeMap after every step, in release and debug builds.",
-            "Ids below ~1000 in the short histories, up to ~25000 in stage `long` (1500 operations, hundreds of successful removals, iteration compared after each). Thorough tier adds an AddressSanitizer stage and a Miri tier for the get_unchecked paths.",
+            "Ids below ~1000 in the short histories, up to ~25000 in stage `long` (1500 operations, hundreds of successful removals, iteration compared after each). Thorough tier adds an AddressSanitizer stage and a Miri tier for the get_unchecked paths. The iterator is consumed in several styles (next + fold / count / map collect, nth, last, size_hint, fused).",
             "DESIGN.md 3/C19"),
     "C20": ("stateful property testing of SolverCache against the provider tables, incl. re-entrant queries from sort_candidates",
             "exploration",
             "Generated histories of direct cache calls are checked for partition, sort/rotation, idempotence (provider call log unchanged) and availability after every step; full solves with a probing sort_candidates check availability answers at call time.",
-            "Synchronous provider for the direct histories; unions and abandoned requests (a caller dropped while suspended in the provider, with and without a second caller waiting) go through the harness scheduler; concurrent duplicates of one key are covered by C10. The cache's providers vary the form of their answers like the solving checks do (reverse filter order, size_hint of the union iterator).",
+            "Synchronous provider for the direct histories; unions and abandoned requests (a caller dropped while suspended in the provider, with and without a second caller waiting) go through the harness scheduler; concurrent duplicates of one key are covered by C10. The cache's providers vary the form of their answers like the solving checks do (reverse filter order, size_hint of the union iterator). Abandoned candidates requests are tested with up to four waiting callers, like dependencies requests.",
             "DESIGN.md 3/C20"),
 }
 
